@@ -88,29 +88,10 @@ class C18(Check):
                 except (AssertionError, ValueError, KeyError, TypeError):
                     c = None  # the mutation left the abstract language's domain (e.g. a negative extent): no second workspace
 
+            from ..worlds.values import harvest as _harvest, rebuild, CONTAINERS
+
             def harvest(node):
-                objs = []
-                for k, t in node.types.items():
-                    objs.append((k, t))
-                    parts = [t.request_type, t.response_type] if isinstance(t, pydsdl.ServiceType) else [t]
-                    for pi, p in enumerate(parts):
-                        if isinstance(t, pydsdl.ServiceType):
-                            objs.append(("%s/p%d" % (k, pi), p))
-                        if isinstance(p, pydsdl.DelimitedType):
-                            objs.append(("%s/p%d/inner" % (k, pi), p.inner_type))
-                        for ai, at in enumerate(p.attributes):
-                            objs.append(("%s/p%d/a%d" % (k, pi, ai), at))
-                            objs.append(("%s/p%d/a%d/t" % (k, pi, ai), at.data_type))
-                            if isinstance(at.data_type, pydsdl.ArrayType):
-                                objs.append(("%s/p%d/a%d/t/e" % (k, pi, ai), at.data_type.element_type))
-                            if isinstance(at, pydsdl.Constant):
-                                objs.append(("%s/p%d/a%d/v" % (k, pi, ai), at.value))
-                        objs.append(("%s/p%d/bls" % (k, pi), p.bit_length_set))
-                objs.append(("expr/set", pydsdl.Set([pydsdl.Rational(1), pydsdl.Rational(3), pydsdl.Rational(-5)])))
-                objs.append(("expr/sset", pydsdl.Set([pydsdl.String("a"), pydsdl.String("bb"), pydsdl.String("ccc"), pydsdl.String("dd")])))
-                objs.append(("expr/str", pydsdl.String("héllo")))
-                objs.append(("expr/bool", pydsdl.Boolean(True)))
-                return objs
+                return _harvest(node.types)
             # the same model from a different but equivalent spelling of every constant initializer ('a' <-> 97, hex <-> dec)
             ws3 = copy.deepcopy(scn["ws"])
             respelled = 0
@@ -198,6 +179,53 @@ class C18(Check):
                     out.fail("C18.alias", "%s (%s): mutating the list returned by .%s (%s) changed the object: %s -> %s" % (k, type(o).__name__, acc, mut, snapshot if len(str(snapshot)) < 200 else "...", list(again) if len(str(again)) < 200 else "..."),
                              "alias:" + acc)
                 out.obs.append([k, acc, mut, changed])
+            # (1b) constructor arguments: an object built through a public constructor from a caller's collection must neither
+            # share it (later mutation of the caller's list / set must not reach the object) nor depend on the kind of iterable
+            nrebuilt = 0
+            for (salt, acc, mut), (k, o) in zip(scn["history"], [c0 for c0 in comps if not isinstance(c0[1], pydsdl.ServiceType)][:4]):
+                kind = CONTAINERS[salt % len(CONTAINERS)]
+                try:
+                    new, arg = rebuild(o, kind)
+                except Exception as ex:
+                    out.fail("C18.alias", "%s (%s): the public constructor rejected the object's own attributes handed over as a %s: %s: %s" % (k, type(o).__name__, kind, type(ex).__name__, ex), "ctor-raised:" + kind)
+                    continue
+                nrebuilt += 1
+                want = digest(describe(o))
+                if digest(describe(new)) != want or not (new == o) or hash(new) != hash(o):
+                    out.fail("C18.eqhash", "%s (%s): rebuilt through the public constructor from its own attributes (handed over as a %s) it differs from / is unequal to the original" % (k, type(o).__name__, kind), "ctor-differs:" + kind)
+                    continue
+                if isinstance(arg, list):
+                    arg.reverse() if mut == "reverse" else arg.clear() if mut in ("clear", "pop") else arg.append(arg[0]) if arg else arg.append("X")
+                    try:
+                        after = digest(describe(new))
+                    except Exception as ex:
+                        after = "raised %s" % type(ex).__name__
+                    if after != want:
+                        out.fail("C18.alias", "%s (%s): mutating the list that was passed to the constructor as `attributes` changed the object" % (k, type(o).__name__), "alias:ctor-attributes")
+                out.shapes.append(digest(["ctor", type(o).__name__, kind]))
+            out.stats["rebuilt_through_public_constructor"] += nrebuilt
+            for k, o in [x for x in oa if isinstance(x[1], pydsdl.BitLengthSet)][:3]:
+                from ..worlds.realcanon import safe_expand
+                if o.max - o.min > 4096:
+                    continue
+                members = safe_expand(o, 100000)
+                if members is None or len(members) > 300:
+                    continue
+                s1, s2, s3 = set(members), {0, 8}, {16, 24}
+                built = {"BitLengthSet(s)": pydsdl.BitLengthSet(s1), "bls + s": o + s2, "bls | s": o | s3, "concatenate": o.concatenate(s2), "unite": o.unite(s3)}
+                before = {n: [x.min, x.max, sorted(x), str(x), hash(x), sorted(x % 7)] for n, x in built.items()}
+                s1.add(max(members) + 1001)
+                s1.discard(min(members))
+                s2.add(5)
+                s3.clear()
+                for n, x in built.items():
+                    try:
+                        now = [x.min, x.max, sorted(x), str(x), hash(x), sorted(x % 7)]
+                    except Exception as ex:
+                        now = ["raised", type(ex).__name__]
+                    if now != before[n]:
+                        out.fail("C18.alias", "%s: a BitLengthSet built by %s changed when the caller's set was modified afterwards: %s -> %s" % (k, n, before[n][:3], now[:3]), "alias:bls-operand")
+                out.stats["bls_built_from_caller_sets"] += 1
             # (2) equality / hash contract between independently built objects
             for k, o in oa:
                 p = db.get(k)
@@ -245,7 +273,8 @@ class C18(Check):
                 want = digest(describe(o))
                 if digest(describe(local)) != want or str(local) != str(o) or not (local == o) or hash(local) != hash(o):
                     out.fail("C18.pickle", "%s (%s): local pickle round trip changed the object" % (k, type(o).__name__), "pickle-local:" + type(o).__name__)
-                ans = peer.ask(blob)
+                dirs = [a.world.abs(r0["dir"]) for r0 in a.uni.roots]
+                ans = peer.ask(blob, k, dirs)
                 out.stats["cross_interpreter_pickles"] += 1
                 out.nontrivial = True
                 out.shapes.append(digest(["pickle", type(o).__name__]))
@@ -260,6 +289,13 @@ class C18(Check):
                                  "pickle-peer-differs:" + type(o).__name__)
                 if not ans["eq_self"] or not ans["eq_twin"] or not ans["hash_twin"]:
                     out.fail("C18.pickle", "%s (%s): ==/hash contract broken after unpickling in the peer" % (k, type(o).__name__), "pickle-peer-eq:" + type(o).__name__)
+                fr = ans.get("fresh")
+                if fr is not None:
+                    out.stats["peer_fresh_comparisons"] += 1
+                    if not fr["eq"]:
+                        out.fail("C18.pickle", "%s (%s): unpickled in the peer (PYTHONHASHSEED %s), the object is unequal to the equal object built there from the same files" % (k, type(o).__name__, ans.get("hashseed")), "pickle-peer-fresh-eq:" + type(o).__name__)
+                    elif not fr["hash"] or not fr["lookup"]:
+                        out.fail("C18.eqhash", "%s (%s): unpickled in the peer (PYTHONHASHSEED %s), the object equals the object built there from the same files but hashes differently / is not found in a dict keyed by it" % (k, type(o).__name__, ans.get("hashseed")), "pickle-peer-fresh-hash:" + type(o).__name__)
                 back = pickle.loads(bytes.fromhex(ans["repickle"]))
                 if digest(describe(back)) != want or not (back == o) or hash(back) != hash(o):
                     out.fail("C18.pickle", "%s (%s): object pickled back by the peer differs / unequal / different hash" % (k, type(o).__name__), "pickle-back:" + type(o).__name__)
